@@ -110,7 +110,7 @@ Definition set_wire (v : list wreq) (m : mgr) : mgr := mkmgr (next_id m) (subs m
 Definition set_pending (v : list (nat * mpayload)) (m : mgr) : mgr := mkmgr (next_id m) (subs m) (execs m) (wire m) (v) (progs m) (jobs m) (failjobs m) (creates m) (clock m) (lreqs m) (lreplies m) (ldones m) (lcancels m).
 Definition set_progs (v : list nat) (m : mgr) : mgr := mkmgr (next_id m) (subs m) (execs m) (wire m) (pending m) (v) (jobs m) (failjobs m) (creates m) (clock m) (lreqs m) (lreplies m) (ldones m) (lcancels m).
 Definition set_jobs (v : list nat) (m : mgr) : mgr := mkmgr (next_id m) (subs m) (execs m) (wire m) (pending m) (progs m) (v) (failjobs m) (creates m) (clock m) (lreqs m) (lreplies m) (ldones m) (lcancels m).
-Definition set_failing (v : list nat) (m : mgr) : mgr := mkmgr (next_id m) (subs m) (execs m) (wire m) (pending m) (progs m) (jobs m) (v) (creates m) (clock m) (lreqs m) (lreplies m) (ldones m) (lcancels m).
+Definition set_failjobs (v : list nat) (m : mgr) : mgr := mkmgr (next_id m) (subs m) (execs m) (wire m) (pending m) (progs m) (jobs m) (v) (creates m) (clock m) (lreqs m) (lreplies m) (ldones m) (lcancels m).
 Definition set_creates (v : list nat) (m : mgr) : mgr := mkmgr (next_id m) (subs m) (execs m) (wire m) (pending m) (progs m) (jobs m) (failjobs m) (v) (clock m) (lreqs m) (lreplies m) (ldones m) (lcancels m).
 Definition set_clock (v : nat) (m : mgr) : mgr := mkmgr (next_id m) (subs m) (execs m) (wire m) (pending m) (progs m) (jobs m) (failjobs m) (creates m) (v) (lreqs m) (lreplies m) (ldones m) (lcancels m).
 Definition set_lreqs (v : list (nat * nat * nat * req)) (m : mgr) : mgr := mkmgr (next_id m) (subs m) (execs m) (wire m) (pending m) (progs m) (jobs m) (failjobs m) (creates m) (clock m) (v) (lreplies m) (ldones m) (lcancels m).
